@@ -904,6 +904,12 @@ class ConsumerGroup(Coordinator):
         This waits for any ongoing processing to complete and commits offsets.
         It may take some time.
         """
+        if errback_result is None and self._stop_draining and not self._stopping:
+            # An earlier stop() is still shutting the consumers down and will
+            # leave the group when they are done. Going on would send the
+            # LeaveGroup request while they are still processing (and make
+            # that first stop() fail instead of this one).
+            raise RestopError("Shutdown called more than once.")
         if self._start_d is not None and not self._stopping:
             self._stop_draining = True
         # A rejoin can complete while we wait for the consumers to shut down,
